@@ -372,6 +372,53 @@ fn run(args: &Args, rep: &mut Report) {
     acc.samples.push(json!({"text": "a\\r\\x1b[1m\\n\\x1b[31mb"}));
     rep.add("corner-cases", true, "25 hand-picked texts (empty, CR/LF placements, XML specials, invert, all colour slots) x 2 configurations", vec![acc]);
 
+    // colour-class collisions: many RGB colours in one document whose components are chosen so
+    // that unpadded / concatenated spellings of the class name would coincide
+    const COMP: [u8; 12] = [0, 1, 2, 0x0a, 0x10, 0x11, 0x12, 0x1a, 0xa0, 0xa1, 0xaa, 111];
+    let mut acc = Acc::new();
+    'outer: for slot in ["38", "48", "58"] {
+        for (a, b) in [(0usize, 1usize), (1, 2), (2, 0)] {
+            // 12^3 colours, ordered so that neighbours differ in the (a, b) components first
+            let mut text = String::new();
+            let mut n = 0;
+            for i in 0..COMP.len() {
+                for j in 0..COMP.len() {
+                    for k in 0..COMP.len() {
+                        let mut c = [0u8; 3];
+                        c[a] = COMP[k];
+                        c[b] = COMP[j];
+                        c[3 - a - b] = COMP[i];
+                        text.push_str(&format!("\x1b[4;{slot};2;{};{};{}m{}", c[0], c[1], c[2], (b'a' + (n % 26) as u8) as char));
+                        n += 1;
+                        if n % 48 == 0 {
+                            text.push('\n');
+                        }
+                    }
+                }
+            }
+            for background in [true, false] {
+                let case = Case { text: text.clone(), win10: false, fg: MColor::Rgb(1, 0x10, 0), bg: MColor::Rgb(0x11, 0, 0), background };
+                acc.eval();
+                acc.nontrivial_distinct();
+                let r = rt::guarded(|| {
+                    let doc = render(&case);
+                    check_doc(&case, &doc)
+                });
+                if let Err(m) = r {
+                    acc.fail("colour-collisions", serde_json::to_value(&case).unwrap(), m);
+                    break 'outer;
+                }
+            }
+        }
+    }
+    acc.samples.push(json!({"text_prefix": "\\x1b[4;38;2;0;0;0ma\\x1b[4;38;2;1;0;0mb\\x1b[4;38;2;2;0;0mc...", "colours_per_document": 1728}));
+    rep.add(
+        "colour-collisions",
+        true,
+        "per colour slot {fg, bg, underline} x 3 component orders x background on/off: one document with all 12^3 RGB colours over components {0,1,2,0x0a,0x10,0x11,0x12,0x1a,0xa0,0xa1,0xaa,111} (values whose unpadded hex / decimal spellings concatenate ambiguously), RGB default colours",
+        vec![acc],
+    );
+
     // second opinion: expat
     let docs = std::mem::take(&mut *DOCS.lock().unwrap());
     let path = rt::tmp_dir().join(format!("c14-batch-{}.bin", std::process::id()));
